@@ -10,7 +10,7 @@ pub fn sh_quote(s: &str) -> String {
     format!("'{}'", s.replace('\'', "'\\''"))
 }
 
-const VALUES: [Option<&str>; 7] = [None, Some(""), Some("a"), Some("a b"), Some(" a  b "), Some(":a::b:"), Some("a:b c")];
+const VALUES: [Option<&str>; 8] = [None, Some(""), Some("a"), Some("a b"), Some(" a  b "), Some(":a::b:"), Some("a:b c"), Some(".a b")];
 const POSITIONALS: [&[&str]; 6] = [&[], &[""], &["a"], &["a", "b c"], &["", "a"], &["a b", ":c:", "d"]];
 const IFSES: [Option<&str>; 7] = [None, Some(" \t\n"), Some(""), Some(":"), Some(" :"), Some(":-"), Some("a")];
 
